@@ -1440,6 +1440,34 @@ pub fn gen_c11(rng: &mut Rng, tier: &str, out: &mut Out) {
         let bytes = crate::proto::cur::write_cache_safe(&text);
         out.d(format!("BUF {}", hx(&bytes)));
         buf_queries(out, rng, true, &u, 1, false);
+        // the file at addresses that are not multiples of 8: whole, torn, and with the declared string
+        // bytes lowered so that the shifted reading is accepted (every field then holds other bytes)
+        if i % 2 == 0 {
+            for a in 1..8usize {
+                out.d(format!("BUFA {} {}", a, hx(&bytes)));
+                out.count("unaligned");
+                if let Some((cl, m)) = u.pairs.first() {
+                    out.d(format!("BCLS {}", hxs(cl)));
+                    out.d(format!("BFRL {} {} 1 -", hxs(cl), hxs(m)));
+                }
+            }
+            for d in 1..=8usize {
+                if bytes.len() >= d {
+                    out.d(format!("BUFA 4 {}", hx(&bytes[..bytes.len() - d])));
+                    out.count("unaligned");
+                }
+            }
+            if bytes.len() >= 24 {
+                let sb = get_u32(&bytes, 20);
+                for v in [0u32, sb.saturating_sub(4), sb.saturating_sub(8), sb / 2] {
+                    let mut b = bytes.clone();
+                    set_u32(&mut b, 20, v);
+                    out.d(format!("BUFA {} {}", rng.pick(&[4usize, 4, 4, 12, 0]), hx(&b)));
+                    out.count("unaligned_lowered");
+                    buf_queries(out, rng, true, &u, 1, false);
+                }
+            }
+        }
         // prefixes: all for small files, sampled + section boundaries for large ones
         let len = bytes.len();
         let mut cuts: Vec<usize> = if len <= 400 || (th && len <= 1000) { (0..len).collect() } else if len > 6000 { (0..len).step_by(if th { 61 } else { 211 }).collect() } else { (0..len).step_by(if th { 3 } else { 7 }).collect() };
@@ -1694,8 +1722,20 @@ pub fn gen_c12(rng: &mut Rng, tier: &str, out: &mut Out) {
         let text = domain_mapping(rng, &cfg);
         let u = universe(&text);
         let bytes = crate::proto::cur::write_cache_safe(&text);
-        for b in corrupt_buffers(rng, &bytes, if th { 24 } else { 10 }) {
-            out.d(format!("BUF {}", hx(&b)));
+        for (bi, b) in corrupt_buffers(rng, &bytes, if th { 24 } else { 10 }).into_iter().enumerate() {
+            if bi % 5 == 4 {
+                // … at an address that is not a multiple of 8 (sections read 4 bytes later), with the
+                // declared string bytes lowered half of the time so that the reading is accepted
+                let mut b = b.clone();
+                if b.len() >= 24 && rng.pct(50) {
+                    let sb = get_u32(&b, 20);
+                    set_u32(&mut b, 20, rng.pick(&[0u32, sb.saturating_sub(4), sb / 2]));
+                }
+                out.d(format!("BUFA {} {}", rng.pick(&[4usize, 4, 4, 2, 7]), hx(&b)));
+                out.count("corrupt_buffers_unaligned");
+            } else {
+                out.d(format!("BUF {}", hx(&b)));
+            }
             out.count("corrupt_buffers");
             buf_queries(out, rng, true, &u, 2, false);
             let tg = TraceGen { u: &u };
